@@ -254,6 +254,12 @@ type request struct {
 	Ty  int    `json:"ty"`
 }
 
+// replayRequest: replay files may name the type instead of giving its index (first match).
+type replayRequest struct {
+	request
+	TyName string `json:"tyname"`
+}
+
 func (q request) run(cfg *gconfig.Config) outcome {
 	t := types[q.Ty]
 	switch q.Op {
@@ -453,12 +459,23 @@ func main() {
 				continue
 			}
 			var inp struct {
-				Ops []request `json:"ops"`
+				Ops  []replayRequest `json:"ops"`
+				Yaml string          `json:"yaml"`
 			}
 			if err := json.Unmarshal([]byte(line), &inp); err != nil {
 				panic(err)
 			}
-			seq("replay", inp.Ops)
+			if inp.Yaml != "" {
+				text = []byte(inp.Yaml) // the document the history was recorded on
+			}
+			ops := make([]request, len(inp.Ops))
+			for i, q := range inp.Ops {
+				ops[i] = q.request
+				if q.TyName != "" {
+					ops[i].Ty = tyByName(q.TyName)
+				}
+			}
+			seq("replay", ops)
 		}
 	case "concurrent":
 		for c := 0; c < *n; c++ {
